@@ -17,6 +17,11 @@ struct vtok { long pad; int id; long tail; };
 static struct kobj K[MAXK];
 static struct vtok V[MAXV];
 static int NK, NV, NKV, kvals[MAXK], CMPMODE;
+static int REENT;      /* the comparison function looks its arguments up in ANOTHER map, the clear callback clears (and refills) a third one */
+static int INTKEY;     /* the map used as a set of small integers: keys are integers cast to pointers (0 included), value token 0 is the NULL pointer */
+#define KP(k) (INTKEY ? (void *)(uintptr_t)kvals[k] : (void *)&K[k])
+#define VP(v) ((INTKEY && (v) == 0) ? NULL : (void *)&V[v])
+#define PROBE(pr, kv_) (INTKEY ? (void *)(uintptr_t)(kv_) : (void *)(pr))
 static char cfgdesc[256];
 static cstl_map_t M, M2;
 
@@ -32,9 +37,9 @@ enum { O_INSERT = 1, O_ERASE, O_ERASE_ITER, O_CLEAR_CB, O_CLEAR_NULL, O_INSERT_N
 enum { K_INS_EXISTING, K_INS_EXISTING_TWIN, K_ERASE_ABSENT, K_ERASE_PRESENT, K_CLEAR, K_CLEAR_NONEMPTY };
 static const char *w_counter_names[] = { "insert_of_existing_key", "insert_of_existing_key_via_other_key_object", "erase_absent_key", "erase_present_key", "clear_applied", "clear_on_nonempty", NULL };
 
-struct cfg { int nkv, twins, nv, cmp; };
-static const struct cfg quick_cfgs[] = { { 5, 2, 2, 0 }, { 4, 2, 3, 1 }, { 10, 0, 1, 0 }, { 6, 1, 2, 2 }, { 10, 0, 1, 2 }, { 8, 1, 1, 1 }, { 6, 1, 2, 3 } };
-static const struct cfg thorough_cfgs[] = { { 6, 2, 2, 0 }, { 5, 2, 3, 1 }, { 12, 0, 1, 0 }, { 7, 1, 2, 2 }, { 10, 1, 1, 1 }, { 12, 0, 1, 2 }, { 7, 2, 2, 1 }, { 11, 0, 1, 1 }, { 9, 1, 1, 3 } };
+struct cfg { int nkv, twins, nv, cmp, reent, intkey; };
+static const struct cfg quick_cfgs[] = { { 5, 2, 2, 0 }, { 4, 2, 3, 1 }, { 10, 0, 1, 0 }, { 6, 1, 2, 2 }, { 10, 0, 1, 2 }, { 8, 1, 1, 1 }, { 6, 1, 2, 3 }, { 5, 1, 2, 0, 1, 0 }, { 6, 0, 2, 0, 0, 1 } };
+static const struct cfg thorough_cfgs[] = { { 6, 2, 2, 0 }, { 5, 2, 3, 1 }, { 12, 0, 1, 0 }, { 7, 1, 2, 2 }, { 10, 1, 1, 1 }, { 12, 0, 1, 2 }, { 7, 2, 2, 1 }, { 11, 0, 1, 1 }, { 9, 1, 1, 3 }, { 7, 1, 2, 1, 1, 0 }, { 9, 0, 2, 2, 0, 1 } };
 static const struct cfg *cfgs(int thorough, int *n)
 {
     if (thorough) { *n = (int)(sizeof thorough_cfgs / sizeof thorough_cfgs[0]); return thorough_cfgs; }
@@ -46,11 +51,13 @@ static void w_setup(int cfg, int thorough)
     int n, i, v;
     const struct cfg *c = &cfgs(thorough, &n)[cfg];
     static const int perm[] = { 3, 0, 5, 1, 9, 4, 2, 7, 10, 6, 8, 11, 12 };
-    NKV = c->nkv; NV = c->nv; CMPMODE = c->cmp; NK = 0;
+    NKV = c->nkv; NV = c->nv; CMPMODE = c->cmp; NK = 0; REENT = c->reent; INTKEY = c->intkey;
     for (i = 0; i < 13 && NK < NKV; i++) if (perm[i] < NKV) kvals[NK++] = perm[i];
     for (i = 0; i < c->twins; i++) kvals[NK++] = 1 + i;          /* second key objects comparing equal to keys 1, 2 */
     snprintf(cfgdesc, sizeof cfgdesc, "cstl_map, %d key values (+%d equal-comparing twin key objects), %d value tokens, comparator %s", NKV, c->twins, NV,
              CMPMODE == 0 ? "a-b" : CMPMODE == 1 ? "sign only" : CMPMODE == 2 ? "reversed" : "INT_MIN/0/INT_MAX");
+    if (REENT) snprintf(cfgdesc + strlen(cfgdesc), sizeof cfgdesc - strlen(cfgdesc), "; comparator looks both keys up in a second map, clear callback clears and refills a third map");
+    if (INTKEY) snprintf(cfgdesc + strlen(cfgdesc), sizeof cfgdesc - strlen(cfgdesc), "; keys are integers cast to pointers (0 = NULL included), value token 0 is NULL");
     w_nops = 0;
     for (i = 0; i < NK; i++) for (v = 0; v < NV; v++) w_ops[w_nops++] = OP(O_INSERT, i, v);
     for (i = 0; i < NK; i++) w_ops[w_nops++] = OP(O_INSERT_NOIT, i, 0);
@@ -62,10 +69,24 @@ static void w_setup(int cfg, int thorough)
 static const char *w_config_desc(void) { return cfgdesc; }
 
 static struct kobj absent_key;
+/* the auxiliary maps of the re-entrant configuration */
+static cstl_map_t MX, MY; static int aux_keys[3] = { 0, 1, 2 }, aux_vals[3], aux_cookie, reent_bad, reent_calls, aux_clr, aux_clr_bad, aux_live;
+static int cmp_aux(const void *a, const void *b, void *p) { if (p != (void *)&aux_cookie) reent_bad++; return *(const int *)a - *(const int *)b; }
+static void cb_aux_clear(void *it_, void *p) { cstl_map_iterator_t *it = it_; aux_clr++; if (p != (void *)&aux_vals[0] || (int *)it->key < aux_keys || (int *)it->key >= aux_keys + 3) aux_clr_bad++; }
+static void aux_fill(cstl_map_t *m, int n) { int i; for (i = 0; i < n; i++) cstl_map_insert(m, &aux_keys[(i * 2) % 3], &aux_vals[(i * 2) % 3], NULL); }
 static int cmp_key(const void *a, const void *b, void *p)
 {
-    int d = ((const struct kobj *)a)->kv - ((const struct kobj *)b)->kv;
+    int d = INTKEY ? (int)(intptr_t)a - (int)(intptr_t)b : ((const struct kobj *)a)->kv - ((const struct kobj *)b)->kv;
     MC_CHECK(PC08, p == (void *)&CMPMODE, "comparator received a wrong private pointer");
+    if (REENT) {       /* keys ordered with the help of a table kept in another map */
+        cstl_map_iterator_t xi; int j;
+        for (j = 0; j < 2; j++) {
+            int kv = ((const struct kobj *)(j ? b : a))->kv, r = ((kv % 3) + 3) % 3;
+            cstl_map_find(&MX, &aux_keys[r], &xi);
+            if (xi.key != &aux_keys[r] || xi.val != &aux_vals[r]) reent_bad++;
+            reent_calls++;
+        }
+    }
     if (CMPMODE == 1) return d < 0 ? -1 : d > 0;
     if (CMPMODE == 2) return -d;
     if (CMPMODE == 3) return d < 0 ? INT_MIN : d > 0 ? INT_MAX : 0;
@@ -86,6 +107,14 @@ static void w_init(void)
     cstl_map_init(&M, cmp_key, &CMPMODE);
     memset(&M2, 0xA5, sizeof M2);
     cstl_map_init(&M2, cmp_key, &CMPMODE);
+    reent_bad = reent_calls = 0; aux_live = 0; aux_clr_bad = 0;
+    if (REENT) {
+        shim_in_lib++;
+        cstl_map_init(&MX, cmp_aux, &aux_cookie); aux_fill(&MX, 3);
+        cstl_map_init(&MY, cmp_aux, &aux_cookie); aux_fill(&MY, 2);
+        shim_in_lib--;
+        aux_live = shim_nlive();
+    }
 }
 static int kobj_of(mc_op_t o) { return OA(o); }
 static int w_enabled(mc_op_t o)
@@ -93,8 +122,8 @@ static int w_enabled(mc_op_t o)
     if (OC(o) == O_ERASE_ITER) return m_key[OA(o)] >= 0;    /* erase_iterator needs a valid iterator */
     return 1;
 }
-static int kid(const void *k) { uintptr_t d = (uintptr_t)k - (uintptr_t)K; if ((uintptr_t)k < (uintptr_t)K || d >= sizeof(struct kobj) * (size_t)NK || d % sizeof(struct kobj)) return -1; return (int)(d / sizeof(struct kobj)); }
-static int vid(const void *v) { uintptr_t d = (uintptr_t)v - (uintptr_t)V; if ((uintptr_t)v < (uintptr_t)V || d >= sizeof(struct vtok) * (size_t)NV || d % sizeof(struct vtok)) return -1; return (int)(d / sizeof(struct vtok)); }
+static int kid(const void *k) { uintptr_t d; int i_; if (INTKEY) { for (i_ = 0; i_ < NK; i_++) if ((uintptr_t)k == (uintptr_t)kvals[i_]) return i_; return -1; } d = (uintptr_t)k - (uintptr_t)K; if ((uintptr_t)k < (uintptr_t)K || d >= sizeof(struct kobj) * (size_t)NK || d % sizeof(struct kobj)) return -1; return (int)(d / sizeof(struct kobj)); }
+static int vid(const void *v) { uintptr_t d; if (INTKEY && v == NULL) return 0; d = (uintptr_t)v - (uintptr_t)V; if ((uintptr_t)v < (uintptr_t)V || d >= sizeof(struct vtok) * (size_t)NV || d % sizeof(struct vtok)) return -1; return (int)(d / sizeof(struct vtok)); }
 
 static int clr_k[MAXK], clr_v[MAXV], clr_bad, clr_calls;
 static void cb_clear(void *it_, void *p)
@@ -104,15 +133,21 @@ static void cb_clear(void *it_, void *p)
     clr_calls++;
     if (p != (void *)&clr_calls || k < 0 || v < 0) { clr_bad++; return; }
     clr_k[k]++; clr_v[v]++;
+    if (REENT) {       /* the entry owns a map of its own: clear it (with its own callback and private pointer) while being handed over, and build the next one */
+        aux_clr = 0;
+        cstl_map_clear(&MY, cb_aux_clear, &aux_vals[0]);
+        if (aux_clr != 2 || cstl_map_size(&MY) != 0) aux_clr_bad++;
+        aux_fill(&MY, 2);
+    }
     /* the callback "frees" the key object; later reads by the library would be use-after-poison */
-    if (clr_k[k] == 1) __asan_poison_memory_region(&K[k], sizeof K[k]);
+    if (clr_k[k] == 1 && !INTKEY) __asan_poison_memory_region(&K[k], sizeof K[k]);
 }
 
 static void check_live_nodes(const char *when)
 {
     /* how many allocations back the entries is the implementation's business; what is stated is that clear releases everything (checked at
      * clear, which is applied in every reachable state, so a node leaked by erase surfaces there) */
-    MC_CHECK(PC08, shim_nlive() >= (m_count > 0), "%s: the map holds %d live allocations for %d entries", when, shim_nlive(), m_count);
+    MC_CHECK(PC08, shim_nlive() >= aux_live + (m_count > 0), "%s: the map holds %d live allocations for %d entries", when, shim_nlive() - aux_live, m_count);
     MC_CHECK(PC08, shim_errors == 0, "%s: the map passed a pointer to free() that it does not own (double or foreign free)", when);
 }
 
@@ -127,15 +162,15 @@ static void w_apply(mc_op_t o)
         int k = kobj_of(o), v = OC(o) == O_INSERT ? OB(o) : 0, kv = kvals[k], noit = OC(o) == O_INSERT_NOIT;
         memset(&it, 0x44, sizeof it);
         if (m_key[kv] >= 0) { MC_COUNT(K_INS_EXISTING); if (m_key[kv] != k) MC_COUNT(K_INS_EXISTING_TWIN); }
-        SHIM_CALL(ab, rc = cstl_map_insert(&M, &K[k], &V[v], noit ? NULL : &it));
+        SHIM_CALL(ab, rc = cstl_map_insert(&M, KP(k), VP(v), noit ? NULL : &it));
         if (ab) break;
         if (m_key[kv] >= 0) {
             MC_CHECK(PC08, rc == 1, "insert of an existing key returned %d, expected 1", rc);
-            if (!noit) MC_CHECK(PC08, it.key == &K[m_key[kv]] && it.val == &V[m_val[kv]] && !cstl_map_iterator_eq(&it, end),
+            if (!noit) MC_CHECK(PC08, it.key == KP(m_key[kv]) && it.val == VP(m_val[kv]) && !cstl_map_iterator_eq(&it, end),
                                 "insert of existing key %d: iterator shows key object %d / value %d, the stored entry is key object %d / value %d", kv, kid(it.key), vid(it.val), m_key[kv], m_val[kv]);
         } else {
             MC_CHECK(PC08, rc == 0, "insert of a new key returned %d, expected 0", rc);
-            if (!noit) MC_CHECK(PC08, it.key == &K[k] && it.val == &V[v] && !cstl_map_iterator_eq(&it, end), "insert of new key %d: iterator does not show the new entry", kv);
+            if (!noit) MC_CHECK(PC08, it.key == KP(k) && it.val == VP(v) && !cstl_map_iterator_eq(&it, end), "insert of new key %d: iterator does not show the new entry", kv);
             m_key[kv] = k; m_val[kv] = v; m_count++;
         }
         break;
@@ -143,12 +178,12 @@ static void w_apply(mc_op_t o)
     case O_ERASE: {
         int absent = OA(o) == 200, k = absent ? -1 : kobj_of(o), kv = absent ? -1 : kvals[k];
         memset(&it, 0x44, sizeof it);
-        SHIM_CALL(ab, rc = cstl_map_erase(&M, absent ? (void *)&absent_key : (void *)&K[k], &it));
+        SHIM_CALL(ab, rc = cstl_map_erase(&M, absent ? PROBE(&absent_key, 77) : (void *)KP(k), &it));
         if (ab) break;
         if (!absent && m_key[kv] >= 0) {
             MC_COUNT(K_ERASE_PRESENT);
             MC_CHECK(PC08, rc == 0, "erase of a present key returned %d", rc);
-            MC_CHECK(PC08, it.key == &K[m_key[kv]] && it.val == &V[m_val[kv]], "erase(key %d) reported key object %d / value %d, the stored entry was key object %d / value %d", kv, kid(it.key), vid(it.val), m_key[kv], m_val[kv]);
+            MC_CHECK(PC08, it.key == KP(m_key[kv]) && it.val == VP(m_val[kv]), "erase(key %d) reported key object %d / value %d, the stored entry was key object %d / value %d", kv, kid(it.key), vid(it.val), m_key[kv], m_val[kv]);
             m_key[kv] = -1; m_val[kv] = -1; m_count--;
         } else {
             MC_COUNT(K_ERASE_ABSENT);
@@ -160,7 +195,7 @@ static void w_apply(mc_op_t o)
     case O_ERASE_ITER: {
         int kv = OA(o);
         struct kobj probe; probe.kv = kv; probe.id = -1;
-        SHIM_CALL(ab, (cstl_map_find(&M, &probe, &it), cstl_map_erase_iterator(&M, &it)));
+        SHIM_CALL(ab, (cstl_map_find(&M, PROBE(&probe, kv), &it), cstl_map_erase_iterator(&M, &it)));
         if (ab) break;
         m_key[kv] = -1; m_val[kv] = -1; m_count--;
         break;
@@ -181,7 +216,8 @@ static void w_apply(mc_op_t o)
             for (i = 0; i < NV; i++) MC_CHECK(PC15 | PC08, clr_v[i] == expv[i], "clear: value token %d passed to the callback %d times, expected %d", i, clr_v[i], expv[i]);
         }
         MC_CHECK(PC15 | PC08, cstl_map_size(&M) == 0, "clear left size %zu", cstl_map_size(&M));
-        MC_CHECK(PC15 | PC08, shim_nlive() == 0, "clear left %d map allocations alive", shim_nlive());
+        MC_CHECK(PC15 | PC08, shim_nlive() == aux_live, "clear left %d map allocations alive", shim_nlive() - aux_live);
+        if (REENT) MC_CHECK(PC15 | PC08, aux_clr_bad == 0 && reent_bad == 0, "a map cleared from inside the clear callback of another map got %d wrong callbacks / lookups from inside a comparison function gave %d wrong answers", aux_clr_bad, reent_bad);
         MC_CHECK(PC15, M.t.t.root == NULL && M.t.t.size == 0 && M.t.off == M2.t.off && M.t.t.off == M2.t.t.off && M.cmp.f == M2.cmp.f && M.cmp.p == M2.cmp.p
                        && M.t.t.cmp.func == M2.t.t.cmp.func && M.t.t.cmp.priv == (void *)&M, "after clear the map object is not field-for-field like a freshly initialised one");
         for (i = 0; i < MAXK; i++) { m_key[i] = -1; m_val[i] = -1; }
@@ -200,17 +236,18 @@ static void w_audit(void)
     MC_CHECK(PC08, cstl_map_size(&M) == (size_t)m_count, "size = %zu, reference holds %d entries", cstl_map_size(&M), m_count);
     for (i = 0; i <= NK; i++) {
         static cstl_map_iterator_t it;
-        const struct kobj *probe = i < NK ? &K[i] : &absent_key;
+        const void *probe = i < NK ? KP(i) : PROBE(&absent_key, 77);
         int kv = i < NK ? kvals[i] : -1;
         memset(&it, 0x44, sizeof it);
         SHIM_CALL(ab, cstl_map_find(&M, probe, &it));
         if (ab) { MC_CHECK(PC08, 0, "find aborted"); return; }
         if (kv >= 0 && m_key[kv] >= 0)
-            MC_CHECK(PC08, !cstl_map_iterator_eq(&it, end) && it.key == &K[m_key[kv]] && it.val == &V[m_val[kv]],
+            MC_CHECK(PC08, !cstl_map_iterator_eq(&it, end) && it.key == KP(m_key[kv]) && it.val == VP(m_val[kv]),
                      "find(key %d via key object %d) yields key object %d / value %d, stored entry is key object %d / value %d", kv, i, kid(it.key), vid(it.val), m_key[kv], m_val[kv]);
         else
             MC_CHECK(PC08, cstl_map_iterator_eq(&it, end), "find of absent key %d did not yield the end iterator", kv);
     }
+    if (REENT) MC_CHECK(PC08 | PC15, reent_bad == 0 && aux_clr_bad == 0, "%d of %d lookups in another map made from inside the comparison function gave a wrong answer (%d wrong callbacks of a nested clear)", reent_bad, reent_calls, aux_clr_bad);
     for (i = 0; i < NK; i++) MC_CHECK(PC08, K[i].pad == 0x1111 && K[i].tail == 0x2222 && K[i].kv == kvals[i], "key object %d was modified", i);
     for (i = 0; i < NV; i++) MC_CHECK(PC08, V[i].pad == 0x1111 && V[i].tail == 0x2222 && V[i].id == i, "value token %d was modified", i);
 }
@@ -238,11 +275,12 @@ static void w_canon(void)
     KB_C('M'); KB_U(cstl_map_size(&M)); KB_C(':');
     for (i = 0; i < NKV; i++) {
         cstl_map_iterator_t it; struct kobj probe; probe.kv = i; probe.id = -1;
-        cstl_map_find(&M, &probe, &it);
+        cstl_map_find(&M, PROBE(&probe, i), &it);
         node_of_kv[i] = it._;
         if (it._) { KB_U((unsigned)i); KB_C('='); KB_I(kid(it.key)); KB_C('/'); KB_I(vid(it.val)); KB_C(' '); }
     }
     cstl_rbtree_foreach(&M.t, cb_shape, NULL, CSTL_BINTREE_FOREACH_DIR_FWD);
+    if (REENT) { KB_C('R'); KB_U((unsigned)(reent_bad != 0)); KB_U((unsigned)(aux_clr_bad != 0)); KB_U(cstl_map_size(&MX)); KB_U(cstl_map_size(&MY)); }
     KB_C('m'); for (i = 0; i < NKV; i++) { KB_I(m_key[i]); KB_C('/'); KB_I(m_val[i]); KB_C(' '); }
     for (i = 0; i < NK; i++) if (K[i].pad != 0x1111 || K[i].tail != 0x2222 || K[i].kv != kvals[i]) { KB_C('X'); KB_U((unsigned)i); }
     for (i = 0; i < NV; i++) if (V[i].pad != 0x1111 || V[i].tail != 0x2222) { KB_C('Y'); KB_U((unsigned)i); }
